@@ -203,7 +203,7 @@ static void run_shape(long w, long h, size_t align, int depth) {
 int main(int argc, char** argv) {
     vh::init(argc, argv);
     g_org = org<ORG, led::alloc<unsigned char>>::name();
-    const int N = vh::thorough() ? 9 : 6;
+    const int N = vh::thorough() ? 12 : 6;
     const int depth = vh::thorough() ? 3 : 2;
     static const size_t aligns[] = {0, 4, 16, 0, 8};
     for (long h = 0; h <= N; ++h)
@@ -212,7 +212,7 @@ int main(int argc, char** argv) {
             if (!vh::begin_case(g_org, vh::cat(w, "x", h, "a", al))) continue;
             vh::sample(vh::cat(g_org, " ", w, "x", h, " align ", al, ": every word of {flipUD,flipLR,transposed,rot90cw,rot90ccw,rot180,subimage,subsampled(2,1),(1,2),(2,3)} up to depth ", depth, " x every (x,y)"));
             // larger shapes only at reduced depth to bound the thorough tier
-            run_shape(w, h, al, (w * h > 49) ? std::min(depth, 2) : depth);
+            run_shape(w, h, al, (w * h > 64) ? std::min(depth, 2) : depth);
             if (!led::L().live.empty()) vh::viol(key("leak"), "image block still live after destruction");
             for (auto& a : led::L().anomalies) vh::viol(key("ledger"), a);
             led::L().anomalies.clear();
@@ -277,7 +277,7 @@ struct vchecker {
 int main(int argc, char** argv) {
     vh::init(argc, argv);
     g_org = "virtual";
-    const int N = vh::thorough() ? 9 : 6;
+    const int N = vh::thorough() ? 12 : 6;
     const int depth = vh::thorough() ? 3 : 2;
     for (long h = 0; h <= N; ++h)
         for (long w = 0; w <= N; ++w) {
